@@ -124,6 +124,15 @@ def step(sh: Shadow, i: int, op: dict[str, Any], r: dict[str, Any]) -> None:
         }
         expect_events(sh, i, r, [], None)
         return
+    if k == "leak":
+        px = sh.ctx.get(op["parent"])
+        if px is None:
+            return
+        sh.ctx[c] = {"state": "open", "parent": op["parent"], "static": dict(px["static"]), "facs": dict(px["facs"]),
+                     "gen": {}, "seen": {}, "gen_n": {}, "calls": {}, "tds": [], "token": None, "children": set(),
+                     "pending": set()}
+        px["children"].add(c)
+        return
     if k == "current":
         exp = sh.cur.get(t)
         want = "noCurrent" if exp is None else f"cur {exp}"
